@@ -15,23 +15,48 @@ theorem farm_all_translated : Irismod.Gen.PureFarm.untranslated = [] := rfl
 
 /-- the translated definitions are exactly these, in source order -/
 theorem farm_translated_pinned : Irismod.Gen.PureFarm.translated =
-    ["updatePool_blockInterval_1(height,pool_LastHeightDistrRewards)",
+    ["updatePool_guard_1(height,pool_LastHeightDistrRewards)",
+     "updatePool_guard_2(read_len_rules)",
+     "updatePool_cond_3(height,pool_LastHeightDistrRewards,pool_TotalLptLocked)",
+     "updatePool_blockInterval_1(height,pool_LastHeightDistrRewards)",
      "updatePool_rewardCollected_1(rules_i_RewardPerBlock,blockInterval)",
+     "updatePool_guard_4(rules_i_RemainingReward,rewardCollected)",
      "updatePool_newRewardPerShare_1(rewardCollected,pool_TotalLptLocked)",
      "updatePool_rules_i_RewardPerShare_1(rules_i_RewardPerShare,newRewardPerShare)",
      "updatePool_rules_i_RemainingReward_1(rules_i_RemainingReward,rewardCollected)",
-     "updatePool_guard_1(height,pool_LastHeightDistrRewards)",
-     "updatePool_guard_2(read_len_rules)",
-     "updatePool_cond_3(height,pool_LastHeightDistrRewards,pool_TotalLptLocked)",
-     "updatePool_guard_4(rules_i_RemainingReward,rewardCollected)",
      "updatePool_cond_5(read_rewardTotal_IsAllPositive)",
      "updatePool_cond_6(isDestroy)",
      "updatePool_cond_7(pool_StartHeight,pool_EndHeight)",
+     "AdjustPool_guard_1(pool_Editable)",
+     "AdjustPool_guard_2(read_creator_String,pool_Creator)",
+     "AdjustPool_guard_3(read_k_Expired_ctx_pool)",
+     "AdjustPool_startHeight_1(pool_StartHeight)",
+     "AdjustPool_cond_4(read_pool_Started_ctx)",
+     "AdjustPool_startHeight_2(read_ctx_BlockHeight)",
+     "AdjustPool_call_updatePool_1_arg2()",
+     "AdjustPool_call_updatePool_1_arg3()",
+     "AdjustPool_rules_i_TotalReward_1(rules_i_TotalReward,read_reward_AmountOf_rules_i_Reward)",
+     "AdjustPool_rules_i_RemainingReward_1(rules_i_RemainingReward,read_reward_AmountOf_rules_i_Reward)",
+     "AdjustPool_cond_5(read_pool_Started_ctx)",
+     "AdjustPool_remainingHeight_1(pool_EndHeight,startHeight)",
+     "AdjustPool_call_UpdateWith_1_arg0(rewardPerBlock)",
+     "AdjustPool_call_SetRewardRules_1_arg1(pool_Id)",
+     "AdjustPool_availableHeight_1()",
+     "AdjustPool_inteval_1(read_availableReward_AmountOf_r_Reward,r_RewardPerBlock)",
+     "AdjustPool_cond_6(availableHeight,inteval)",
+     "AdjustPool_availableHeight_2(inteval)",
+     "AdjustPool_expiredHeight_1(startHeight,availableHeight)",
+     "AdjustPool_cond_7(expiredHeight,pool_EndHeight)",
+     "AdjustPool_call_DequeueActivePool_1_arg1(pool_Id)",
+     "AdjustPool_call_DequeueActivePool_1_arg2(pool_EndHeight)",
+     "AdjustPool_pool_EndHeight_1(expiredHeight)",
+     "AdjustPool_call_EnqueueActivePool_1_arg1(pool_Id)",
+     "AdjustPool_call_EnqueueActivePool_1_arg2(pool_EndHeight)",
+     "CaclRewards_cond_1(farmInfo_Locked)",
      "CaclRewards_pendingRewardTotal_1(r_RewardPerShare,farmInfo_Locked)",
      "CaclRewards_pendingReward_1(pendingRewardTotal,read_farmInfo_RewardDebt_AmountOf_r_Reward)",
      "CaclRewards_locked_1(farmInfo_Locked,deltaAmt)",
-     "CaclRewards_debt_1(r_Reward,r_RewardPerShare,locked)",
-     "CaclRewards_cond_1(farmInfo_Locked)"] := rfl
+     "CaclRewards_debt_1(r_Reward,r_RewardPerShare,locked)"] := rfl
 
 /-- block interval of a release: `height - last` (int64 subtraction does not wrap for heights of a chain) -/
 theorem updatePool_blockInterval_eq (h last : Nat) (hl : last ≤ h) (hh : h < 9223372036854775808) :
@@ -122,5 +147,64 @@ theorem CaclRewards_debt_eq (d : String) (rps : Dec) (locked : Int) (hd : Valida
         simp [ha, this, obind_none]
       · have : 0 ≤ a := by omega
         simp [ha, this, obind_some]
+
+/-! ### `AdjustPool` (keeper/pool.go): the end-height arithmetic, one loop iteration of the minimum, and the order of
+the writes (the pinned list is in source order: the remaining-height computation reads the OLD reward per block because
+`UpdateWith` / `SetRewardRules` come after it — seeds C05-6, C06-5 moved them) -/
+
+private theorem wrapI (x : Int) (h : -9223372036854775808 ≤ x ∧ x < 9223372036854775808) : I64_wrap x = x := by
+  unfold I64_wrap
+  have e : (x + 9223372036854775808).emod 18446744073709551616 = x + 9223372036854775808 :=
+    Int.emod_eq_of_lt (by omega) (by omega)
+  rw [e]; omega
+
+/-- the heights: remaining = end − start, new end = start + available, and the queue is moved from the old end height to
+the new one (`adjustCore`), for heights of a chain (no int64 wrap; the wrap near 2^63 is outside the operation alphabet) -/
+theorem AdjustPool_heights_eq_model (start endH avail : Int)
+    (hs : 0 ≤ start ∧ start < 4611686018427387904) (he : 0 ≤ endH ∧ endH < 4611686018427387904)
+    (ha : -1 ≤ avail ∧ avail < 4611686018427387904) :
+    AdjustPool_remainingHeight_1 endH start = some (endH - start) ∧
+    AdjustPool_expiredHeight_1 start avail = some (start + avail) ∧
+    AdjustPool_cond_7 (start + avail) endH = some (decide (start + avail = endH)) ∧
+    AdjustPool_call_DequeueActivePool_1_arg2 endH = some endH ∧
+    AdjustPool_pool_EndHeight_1 (start + avail) = some (start + avail) ∧
+    AdjustPool_call_EnqueueActivePool_1_arg2 (start + avail) = some (start + avail) := by
+  refine ⟨?_, ?_, ?_, rfl, rfl, rfl⟩
+  · unfold AdjustPool_remainingHeight_1 I64_Sub; rw [wrapI _ (by omega)]
+  · unfold AdjustPool_expiredHeight_1 I64_Add; rw [wrapI _ (by omega)]
+  · unfold AdjustPool_cond_7
+    by_cases h : start + avail = endH <;> simp [h]
+
+/-- one iteration of the minimum over the reward rules: `available / rewardPerBlock` as an int64 (a panic for a zero
+rate or a quotient of 2^63 and more), taken when the running minimum is the sentinel −1 or larger — the body of the
+model's `availableHeight` -/
+theorem AdjustPool_interval_step_eq_model (avail rpb : Nat) (m : Int) (ha : avail < Irismod.Sdk.pow2_256) :
+    AdjustPool_inteval_1 avail rpb =
+      (if rpb = 0 then none else if avail / rpb ≥ 9223372036854775808 then none else some ((avail / rpb : Nat) : Int)) ∧
+    AdjustPool_cond_6 m ((avail / rpb : Nat) : Int) = some (decide (m < 0 ∨ m > ((avail / rpb : Nat) : Int))) ∧
+    AdjustPool_availableHeight_1 = some (-1) ∧
+    AdjustPool_availableHeight_2 ((avail / rpb : Nat) : Int) = some ((avail / rpb : Nat) : Int) := by
+  refine ⟨?_, ?_, rfl, rfl⟩
+  · unfold AdjustPool_inteval_1
+    simp only [Int_Quo_nat]
+    by_cases h0 : rpb = 0
+    · simp only [h0, if_true, obind_none]
+    · simp only [h0, if_false, obind_some, Int_Int64]
+      generalize avail / rpb = q
+      by_cases hb : q ≥ 9223372036854775808
+      · have : ¬ (-9223372036854775808 ≤ (q : Int) ∧ (q : Int) < 9223372036854775808) := by omega
+        simp only [hb, this, if_true, if_false, obind_none]
+      · have : (-9223372036854775808 ≤ (q : Int) ∧ (q : Int) < 9223372036854775808) := by omega
+        simp only [hb, this, and_self, if_true, if_false, obind_some]
+  · unfold AdjustPool_cond_6
+    by_cases a : m < 0 <;> by_cases b : m > ((avail / rpb : Nat) : Int) <;> simp [a, b]
+
+/-- a top-up adds the same amount to a rule's total and to its remaining budget (`adjustRules`) -/
+theorem AdjustPool_topup_eq_model (total remaining add : Nat) (h1 : total + add < Irismod.Sdk.pow2_256)
+    (h2 : remaining + add < Irismod.Sdk.pow2_256) :
+    AdjustPool_rules_i_TotalReward_1 total add = some ((total + add : Nat) : Int) ∧
+    AdjustPool_rules_i_RemainingReward_1 remaining add = some ((remaining + add : Nat) : Int) := by
+  unfold AdjustPool_rules_i_TotalReward_1 AdjustPool_rules_i_RemainingReward_1
+  simp only [Int_Add_nat, h1, h2, if_true, obind_some, and_self]
 
 end Irismod.Props.Tie
